@@ -1,5 +1,6 @@
 use crate::engine::Ctx;
 
+pub mod c06;
 pub mod c07;
 pub mod c08;
 pub mod c09;
@@ -10,6 +11,7 @@ pub mod c13;
 
 pub fn run(ctx: &Ctx) -> i32 {
     match ctx.prop.as_str() {
+        "C06" => c06::run(ctx),
         "C07" => c07::run(ctx),
         "C08" => c08::run(ctx),
         "C09" => c09::run(ctx),
@@ -37,6 +39,7 @@ pub fn replay(ctx: &Ctx, path: &str) -> i32 {
         None => text.clone(),
     };
     match ctx.prop.as_str() {
+        "C06" => c06::replay(ctx, &body),
         "C07" => c07::replay(ctx, &body),
         "C08" => c08::replay(ctx, &body),
         "C09" => c09::replay(ctx, &body),
